@@ -84,7 +84,11 @@ class PipelineBase(Obligation):
         return b.layout(steps,insp,keys,exp,ld.readme)
     def mk_artifacts(self,d):
         b=self.b
-        return [(b.vpath(p),b.target_description(dg if isinstance(dg,list) else [dg])) for p,dg in sorted(d.items())]
+        def td(dg):
+            if isinstance(dg,dict):      # {algorithm: digest bytes}
+                return b.hashmap([(b.variant('HashAlgorithm',{'sha256':'Sha256','sha512':'Sha512'}[a]),Agg('HashValue',[u8vec(x if isinstance(x,list) else [x])])) for a,x in sorted(dg.items())])
+            return b.target_description(dg if isinstance(dg,list) else [dg])
+        return [(b.vpath(p),td(dg)) for p,dg in sorted(d.items())]
     def mk_link(self,run,ld):
         b=self.b
         rv=ld.return_value
@@ -172,7 +176,8 @@ class PipelineBase(Obligation):
 def conc_sig(sd,m):
     return {'label':sd.label,'made_by':model_value(m,tbv(sd.made_by)),'intact':bool(model_value(m,tb(sd.intact))),'over':bool(model_value(m,tb(sd.over)))}
 def conc_art(d,m):
-    return {p:[model_value(m,x) for x in (dg if isinstance(dg,list) else [dg])] for p,dg in d.items()}
+    cv=lambda dg: [model_value(m,x) for x in (dg if isinstance(dg,list) else [dg])]
+    return {p:({a:cv(x) for a,x in dg.items()} if isinstance(dg,dict) else cv(dg)) for p,dg in d.items()}
 def conc_rules(rs): return [r if isinstance(r,list) else r for r in rs]
 def conc_layout(ld,m,now_secs=None):
     exp=ld.expires
